@@ -287,7 +287,7 @@ def loops_of(fn, site, reps, ref, stats):
 
 def generate_loops(prop, repo=None):
     repo = repo or os.environ.get("VERIF_REPO", "/repo")
-    lines = ["From PV Require Import Lib.LoopShape.", "From Coq Require Import List QArith.", "Import ListNotations.", "Local Open Scope nat_scope.", ""]
+    lines = ["From PV Require Import Lib.Base Model.Prng Model.Core Model.NoDist Proofs.LoopLink.", "From PV Require Import Lib.LoopShape.", "From Coq Require Import List QArith.", "Import ListNotations.", "Local Open Scope nat_scope.", ""]
     detail = []
     for site in BY_PROP[prop]:
         mod, fname, reps, ref, stats, expected = SITES[site]
@@ -319,6 +319,19 @@ def generate_loops(prop, repo=None):
             else:
                 lines.append("  exact I.")
             lines.append("Qed.")
+            # the translated loop, run on the statistics the MODEL's loop produces on a tape, returns the model's results
+            if (site, k) == ("two_sample_core", 0):
+                lines += [f"Theorem G9_{site}_{k}_is_the_model : forall s pot nx rr reps t tst d ar t', core_loop s pot nx rr reps t = Ok (d, ar, t') ->",
+                          f"  exists st', loop (value_of d) tst {nm} reps st_init = Some st' /\\ LoopShape.dist st' = d.",
+                          f"Proof. exact (shaped_loop_is_core_dist {nm} {nm}_shape (proj1 {nm}_meaning)). Qed."]
+            if (site, k) == ("two_sample_core", 1):
+                lines += [f"Theorem G9_{site}_{k}_is_the_model : forall s pot nx rr reps t tst d ar t', core_loop s pot nx rr reps t = Ok (d, ar, t') ->",
+                          f"  exists st', loop (value_of d) tst {nm} reps st_init = Some st' /\\ core_hits s pot nx rr reps t tst = Ok (cnt st' 0, cnt st' 1, t').",
+                          f"Proof. exact (shaped_loop_is_core_hits {nm} {nm}_shape (proj2 {nm}_meaning)). Qed."]
+            if (site, k) == ("one_sample", 1):
+                lines += [f"Theorem G9_{site}_{k}_is_the_model : forall s z reps t tst d ar t', one_loop s z reps t = Ok (d, ar, t') ->",
+                          f"  exists st', loop (value_of d) tst {nm} reps st_init = Some st' /\\ one_hits s z reps t tst = Ok (cnt st' 0, cnt st' 1, t').",
+                          f"Proof. exact (shaped_loop_is_one_hits {nm} {nm}_shape (proj2 {nm}_meaning)). Qed."]
             lines.append("")
             detail.append({"site": f"{mod}.{fname}", "loop": k, "instructions": ins, "counters": counters})
     return "\n".join(lines), detail
